@@ -22,3 +22,12 @@ package endpoint
 //@   requires response != nil && request != nil && request.Body != nil
 //@   requires verified: verified(sessOf(request))
 //@   modifies heap, sink(response), status(response), stream(request.Body), dbver, lastname, lastkey, dbhas, dbkey
+
+//@ func NewResource(context, imgFn) (r)
+//@   ensures fresh(r)
+//@ func NewPairing(controller, emitter) (p)
+//@   ensures fresh(p)
+//@ func NewPairSetup(context, device, database, emitter) (p)
+//@   ensures fresh(p)
+//@ func NewPairVerify(context, database) (p)
+//@   ensures fresh(p)
